@@ -1102,6 +1102,21 @@ func ruleC01Like(c *Ctx) {
 			cur = a[0]
 			continue
 		}
+		// one pass of a constant strings.Replacer over the text: every pair is a substitution of this step
+		if a, ok := callArgs(cur, "(*strings.Replacer).Replace"); ok && len(a) == 2 {
+			if call, isCall := cur.V.(*ssa.Call); isCall {
+				if pairs, _, isR := replacerPairs(call); isR {
+					if sawQuote {
+						quoteInside = false
+					}
+					for _, pr := range pairs {
+						subs[pr[0]] = pr[1]
+					}
+					cur = a[1]
+					continue
+				}
+			}
+		}
 		if a, ok := callArgs(cur, "regexp.QuoteMeta"); ok && len(a) == 1 {
 			if len(subs) == 0 {
 				// QuoteMeta applied after the substitutions would quote the generated `.`/`.*`
